@@ -142,6 +142,16 @@ at c05acbb>`), then shown silent on the repaired one:
 | `not` + optional blank (`3510d58`) | C19 `keyword-named-fields-optional-blanks` |
 | rewriter on its own output, rewriter shared by two visits (`1b2f22f` `1dc6d79`) | C14 `composition`, C14 `shared-instance-interleavings` (greenlet scheduler, all schedules within the preemption bound) |
 
+A **second hunt** (`hunts2/`, 20 sub-agents on the repaired tree, told what was already repaired, recorded or judged out of scope)
+came back with "no violation found" for C05 (beyond the parenthesised in-list), C08, C10, C11, C13, C14 and C20 (sequential
+histories). It produced six more repairs (`bfbbddf` `c95c7bc` `dc4ca3d` `d2167b4` `f4d7bf0` `0b82c84`: a `null` argument became
+the inferred type of `concat`; the stripper - not adapted to `7dfbd66` - built an identifier with a dotted name; leaks of
+ArgumentError, OverflowError / ValueError, AttributeError and a bare ValueError; duplicate / list-valued named parameters on
+Django), one more known finding (C09 `sqlite:interval-literal-not-sqlite-syntax`, pinned by the repository's tests; C09 now
+*prepares* every statement of the SQLite dialect in SQLite) and the last bullet of section 4.3. Layers added first and shown to
+report each defect on the unrepaired tree: C17 qualified segments (its reference had, again, followed the library: it built the
+dotted name), C18 `null-arguments`, C12 `overflow-literal` / `plain-column-navigation` / duplicate named parameters.
+
 The wave also exposed an oracle that had *copied* a defect: the reference parser (`vt/refparse.py`) dropped the qualifier of inner
 path segments "because the library does", so C05/C11 agreed with the library; it now follows the text (section 7).
 '''
